@@ -17,14 +17,19 @@
      ExitStatus a hook that exits with status N # 0 is reported as failed with that status: OnExit is
                 called with an error and the error names N
    Layer 1 (the code): the command line is split (shellquote: quotes removed) and os.Expand runs on each
-   part (Expand below); the exit code is discarded, so OnExit is not called without restart and is called
-   with "command exited with code 0" with restart.                                                      *)
+   part (Expand below); OnExit receives "command exited with code N" for N # 0, and for N = 0 only with
+   restart. The behaviour before the fix (commit "report the exit code of hook commands") is kept as the
+   named deviation "ExitCodeDiscarded": every command counts as exited with code 0 (OnExit not called
+   without restart, "code 0" with restart). Constant L1Variant selects which of the two layer 1 is
+   ("fixed" by default); whatever it is, a failing execution whose OnExit calls are those of the deviation
+   is reported with deviation = "ExitCodeDiscarded".                                                    *)
 EXTENDS VerifCommon
 
 CONSTANTS Families,     \* subset of {"one", "two", "mega", "exit"}
           MaxPieces,    \* pieces per argument in family "mega"
           Full,         \* TRUE: families "one", "two", "exit" with every profile and every pair; FALSE: a rotation
-          Profiles      \* value profiles (indices into ClassList)
+          Profiles,     \* value profiles (indices into ClassList)
+          L1Variant     \* "fixed" (the current code) or the name of a deviation: "ExitCodeDiscarded"
 
 \* ------------------------------------------------------------------ code points
 Ascii == " !\"#$%&'()*+,-./0123456789:;<=>?@ABCDEFGHIJKLMNOPQRSTUVWXYZ[\\]^_`abcdefghijklmnopqrstuvwxyz{|}~"
@@ -127,7 +132,14 @@ ExpandAt(cs, i, env) ==
          ELSE Lookup(env, Str(SubSeq(cs, i + 1, i + k))) \o ExpandAt(cs, i + 1 + k, env)
 L1Arg(a, env) == ExpandAt(UnquotedArg(a), 1, env)
 L1Argv(tm, env) == [i \in 1..Len(tm) |-> L1Arg(tm[i], env)]
-L1OnExit(status, restart) == IF restart THEN <<0>> ELSE <<>>       \* the numbers named by the first OnExit call, if any
+\* the numbers named by the first OnExit call (<<>> = OnExit not called)
+Deviations == {"ExitCodeDiscarded"}
+OnExitDiscarded(status, restart) == IF restart THEN <<0>> ELSE <<>>
+OnExitFixed(status, restart) == IF status # 0 THEN <<status>> ELSE IF restart THEN <<0>> ELSE <<>>
+L1OnExit(status, restart) == IF L1Variant = "fixed" THEN OnExitFixed(status, restart) ELSE OnExitDiscarded(status, restart)
+DeviationOf(nums, status, restart) ==
+    IF nums = OnExitDiscarded(status, restart) /\ nums # OnExitFixed(status, restart) THEN "ExitCodeDiscarded" ELSE "none"
+ASSUME L1Variant \in {"fixed"} \cup Deviations
 
 \* ------------------------------------------------------------------ bounded model
 \* families of cases:
